@@ -297,3 +297,22 @@ def guard_of(stmt, pmap, stop=None):
     conds.reverse()
     e = conds[0] if len(conds) == 1 else ast.BoolOp(op=ast.And(), values=conds)
     return ast.fix_missing_locations(e)
+
+
+def step_of(stmt):
+    """(target expr, signed constant step) for `t += c`, `t -= c`, `t = t + c`, `t = c + t`, `t = t - c` with an int constant c;
+    None for anything else.  The spelled-out and the augmented form are the same statement for every rule that counts."""
+    if isinstance(stmt, ast.AugAssign) and isinstance(stmt.op, (ast.Add, ast.Sub)) and isinstance(stmt.value, ast.Constant) \
+            and isinstance(stmt.value.value, int) and not isinstance(stmt.value.value, bool):
+        return stmt.target, stmt.value.value if isinstance(stmt.op, ast.Add) else -stmt.value.value
+    if isinstance(stmt, ast.Assign) and len(stmt.targets) == 1 and isinstance(stmt.value, ast.BinOp) and isinstance(stmt.value.op, (ast.Add, ast.Sub)):
+        t = stmt.targets[0]
+        tt = ast.dump(t).replace('Store()', 'Load()')
+        l, r = stmt.value.left, stmt.value.right
+        def const(e):
+            return isinstance(e, ast.Constant) and isinstance(e.value, int) and not isinstance(e.value, bool)
+        if ast.dump(l) == tt and const(r):
+            return t, r.value if isinstance(stmt.value.op, ast.Add) else -r.value
+        if isinstance(stmt.value.op, ast.Add) and ast.dump(r) == tt and const(l):
+            return t, l.value
+    return None
